@@ -23,6 +23,10 @@ def _body(rng, ints, writable, fn_in, fn_out, callees, allfuncs, nassert, want_l
             if rng.random() < 0.5:
                 rng.shuffle(args)
         lhs = rng.sample(writable, len(f["out"])) if len(writable) >= len(f["out"]) else None
+        # outputs overwriting the arguments of the same call, in the order of the arguments (any index order)
+        if lhs is not None and len(f["out"]) == len(args) and len(set(args)) == len(args) and all(a_ in writable for a_ in args) \
+                and rng.random() < 0.4:
+            lhs = list(args)
         if lhs is None:
             return None
         return {"op": "call", "fn": name, "lhs": lhs, "args": args}
@@ -80,7 +84,32 @@ def _body(rng, ints, writable, fn_in, fn_out, callees, allfuncs, nassert, want_l
     return blocks
 
 
+def countdown_program(rng, pid):
+    """directed family: a DIRECTLY self-recursive function with a base case whose recursive call passes a different value
+       main: k := c; res := f(k)      f(n) -> r: if n <= 0 then r := a else { m := n - 1; t := f(m); r := t + d }
+    (invariants of f's blocks must cover every activation, not only the one made by main)"""
+    vars_ = [{"n": NAMES[i], "t": "int"} for i in range(4)]
+    X, Y, Z, W = 1, 2, 3, 4
+    c = rng.choice([1, 1, 2])
+    a, d = rng.randint(-1, 1), rng.choice([0, 1, 1])
+    le = lambda k, t=(): {"k": k, "t": [list(u) for u in t]}
+    g = {"e": le(0, [(1, X)]), "r": "le"}                      # n <= 0
+    f_blocks = [{"succ": [2, 3], "stmts": []},
+                {"succ": [4], "stmts": [{"op": "assume", "c": g}, {"op": "assign", "x": Y, "e": le(a)}]},
+                {"succ": [4], "stmts": [{"op": "assume", "c": negate(g)}, {"op": "arith", "f": "sub", "x": Z, "y": X, "zk": 1, "z": 1},
+                                        {"op": "call", "fn": "f1", "lhs": [W], "args": [Z]},
+                                        {"op": "arith", "f": "add", "x": Y, "y": W, "zk": 1, "z": d}]},
+                {"succ": [], "stmts": []}]
+    main_blocks = [{"succ": [2], "stmts": [{"op": "assign", "x": Z, "e": le(c)}, {"op": "call", "fn": "f1", "lhs": [W], "args": [Z]}]},
+                   {"succ": [], "stmts": [{"op": "assert", "c": hist.cst(rng, [W, Z], rels=("le", "lt", "eq", "ne")), "id": 1}]}]
+    funcs = [{"name": "main", "in": [], "out": [], "entry": 1, "exit": 2, "blocks": main_blocks},
+             {"name": "f1", "in": [X], "out": [Y], "entry": 1, "exit": 4, "blocks": f_blocks}]
+    return {"id": pid, "vars": vars_, "kinds": ["int"] * 4, "nv": 4, "funcs": funcs, "init": [], "recursive": True}
+
+
 def program(rng, pid):
+    if rng.random() < 0.12:
+        return countdown_program(rng, pid)
     ints = [1, 2, 3, 4]
     vars_ = [{"n": NAMES[i - 1], "t": "int"} for i in ints]
     nf = rng.choice([1, 2, 2, 3])
@@ -89,7 +118,8 @@ def program(rng, pid):
     for name in order:
         nin = rng.choice([1, 1, 2])
         ins = rng.sample(ints, nin)
-        outs = rng.sample([v for v in ints if v not in ins], 1)
+        free = [v for v in ints if v not in ins]
+        outs = rng.sample(free, 2 if (len(free) >= 2 and rng.random() < 0.35) else 1)
         funcs[name] = {"name": name, "in": ins, "out": outs}
     # call structure: main calls some; f_i calls f_j (j > i: DAG), plus optional recursion
     rec = rng.random() < 0.3
